@@ -235,6 +235,6 @@ def classic_2fma(a: fp.Real, b: fp.Real, c: fp.Real):
     a1, a2 = classic_2sum(c, u2)
     b1, b2 = classic_2sum(u1, a1)
     g = (b1 - r1) + b2
-    r2, r3 = fast_2sum(g, a2)
+    r2, r3 = classic_2sum(g, a2)
 
     return r1, r2, r3
